@@ -843,5 +843,11 @@ func runAll(c *core.Ctx) error {
 	if want("text") {
 		runText(c, rng, &id)
 	}
+	if want("debslot") {
+		runSlot(c, rng, &id)
+	}
+	if want("names") {
+		runNames(c, rng, &id)
+	}
 	return nil
 }
